@@ -1186,24 +1186,53 @@ struct OsTrustCase {
     server_cert: String,
     /// the client's certificate; server side: always "os-ca"
     client_cert: String,
+    /// client side: the client is told to skip verification (then ANY certificate must be accepted, whatever roots -
+    /// none at all included - the client has); absent in recorded cases of earlier versions = false
+    skip: bool,
+    /// what SSL_CERT_FILE holds while the case runs: `OS_STORE_DEFAULT` = the bundle with os-ca (the whole parent process), or
+    /// one of `OS_EMPTY_STORE_KINDS` = an OS trust store without any certificate (client side, no CA file; such a case
+    /// is only ever executed by the child process of `os_empty_child`, which owns its environment)
+    os_store: String,
 }
+
+/// the value of `OsTrustCase::os_store` in the driver's own process
+const OS_STORE_DEFAULT: &str = "os-ca";
+/// an OS trust store that yields no certificate: what `unusable_bundle` makes, or no file at all at the path
+const OS_EMPTY_STORE_KINDS: [&str; 5] = ["empty", "key-only", "der", "truncated-pem", "missing"];
+/// CA files without certificates of the skip-verify-ON cases: those the unchanged subject reads as "no certificate in
+/// here". A PEM section that is cut off ("truncated-pem") is a file the subject refuses to read at all (error "section end
+/// missing" when the client configuration is built, with skip-verify on or off): a refused configuration, not a rejected
+/// certificate, so it is not in this list (as an OS trust store such a file only produces a warning and IS in
+/// `OS_EMPTY_STORE_KINDS`).
+const OS_SKIP_BUNDLE_KINDS: [&str; 3] = ["empty", "key-only", "der"];
+/// server certificates of the skip-verify cases of this pass: "any certificate"
+const OS_SKIP_SERVER_CERTS: [&str; 4] = ["os-ca", "trusted-ca", "self-signed", "other-ca"];
 
 impl OsTrustCase {
     fn to_json(&self) -> Value {
         json!({"kind": "os-trust-store", "alg": self.alg, "side": self.side, "ca_file": self.ca_file, "via": self.via, "ctor": self.ctor,
-               "server_cert": self.server_cert, "client_cert": self.client_cert, "skip_verify": false,
-               "os_trust_store": "SSL_CERT_FILE = a bundle holding os-ca only; SSL_CERT_DIR unset"})
+               "server_cert": self.server_cert, "client_cert": self.client_cert, "skip_verify": self.skip, "os_store_content": self.os_store,
+               "os_trust_store": if self.empty_os_store() { "SSL_CERT_FILE = a path that yields no certificate (os_store_content); SSL_CERT_DIR unset; executed by a child process of the driver" } else { "SSL_CERT_FILE = a bundle holding os-ca only; SSL_CERT_DIR unset" }})
     }
     fn from_json(v: &Value) -> Self {
         let s = |k: &str| v[k].as_str().unwrap_or_else(|| panic!("replay: missing {k}")).to_string();
-        Self { alg: s("alg"), side: s("side"), ca_file: s("ca_file"), via: s("via"), ctor: s("ctor"), server_cert: s("server_cert"), client_cert: s("client_cert") }
+        let os_store = v["os_store_content"].as_str().unwrap_or(OS_STORE_DEFAULT).to_string();
+        assert!(os_store == OS_STORE_DEFAULT || OS_EMPTY_STORE_KINDS.contains(&os_store.as_str()), "replay: unknown os_store_content {os_store}");
+        Self { alg: s("alg"), side: s("side"), ca_file: s("ca_file"), via: s("via"), ctor: s("ctor"), server_cert: s("server_cert"), client_cert: s("client_cert"), skip: v["skip_verify"].as_bool().unwrap_or(false), os_store }
     }
     fn unusable(&self) -> bool {
         OS_BUNDLE_KINDS.contains(&self.ca_file.as_str())
     }
+    fn empty_os_store(&self) -> bool {
+        self.os_store != OS_STORE_DEFAULT
+    }
+    /// the client has no root at all: its CA file holds no certificate, or it has none and the OS trust store is empty
+    fn no_roots(&self) -> bool {
+        self.side == "client" && (self.unusable() || (self.ca_file == "system" && self.empty_os_store()))
+    }
     /// the control that shows that SSL_CERT_FILE feeds the subject's built-in roots
     fn is_system_control(&self) -> bool {
-        self.side == "client" && self.ca_file == "system" && self.server_cert == "os-ca"
+        self.side == "client" && self.ca_file == "system" && self.server_cert == "os-ca" && !self.skip && !self.empty_os_store()
     }
 }
 
@@ -1212,7 +1241,7 @@ fn os_trust_domain(algs: &[&str]) -> Vec<OsTrustCase> {
     for alg in algs {
         let mut client = |ca_file: &str, server_cert: &str, client_cert: &str| {
             for via in CLIENT_VIA {
-                v.push(OsTrustCase { alg: (*alg).into(), side: "client".into(), ca_file: ca_file.into(), via: via.into(), ctor: "make_server_config".into(), server_cert: server_cert.into(), client_cert: client_cert.into() });
+                v.push(OsTrustCase { alg: (*alg).into(), side: "client".into(), ca_file: ca_file.into(), via: via.into(), ctor: "make_server_config".into(), server_cert: server_cert.into(), client_cert: client_cert.into(), skip: false, os_store: OS_STORE_DEFAULT.into() });
             }
         };
         // controls first: system roots accept os-ca (and nothing else); os-ca as a file accepts os-ca
@@ -1233,8 +1262,19 @@ fn os_trust_domain(algs: &[&str]) -> Vec<OsTrustCase> {
         for roots in ["trusted-ca", "other-ca"] {
             client(roots, "os-ca", "none");
         }
+        // skip-verify ON over a CA file without certificates (= an EMPTY root store): any certificate is accepted; both
+        // skip-verify arms of the client configuration (with / without a client certificate), both entry points
+        for kind in OS_SKIP_BUNDLE_KINDS {
+            for server_cert in OS_SKIP_SERVER_CERTS {
+                for client_cert in ["none", "client-ca"] {
+                    for via in CLIENT_VIA {
+                        v.push(OsTrustCase { alg: (*alg).into(), side: "client".into(), ca_file: kind.into(), via: via.into(), ctor: "make_server_config".into(), server_cert: server_cert.into(), client_cert: client_cert.into(), skip: true, os_store: OS_STORE_DEFAULT.into() });
+                    }
+                }
+            }
+        }
         // server side
-        let mut server = |ca_file: &str, via: &str, ctor: &str| v.push(OsTrustCase { alg: (*alg).into(), side: "server".into(), ca_file: ca_file.into(), via: via.into(), ctor: ctor.into(), server_cert: "trusted-ca".into(), client_cert: "os-ca".into() });
+        let mut server = |ca_file: &str, via: &str, ctor: &str| v.push(OsTrustCase { alg: (*alg).into(), side: "server".into(), ca_file: ca_file.into(), via: via.into(), ctor: ctor.into(), server_cert: "trusted-ca".into(), client_cert: "os-ca".into(), skip: false, os_store: OS_STORE_DEFAULT.into() });
         for ctor in CTORS {
             server("os-ca", "start", ctor); // control: the os-ca client certificate is admitted under os-ca
         }
@@ -1255,8 +1295,33 @@ fn os_trust_domain(algs: &[&str]) -> Vec<OsTrustCase> {
     v
 }
 
+/// The cases with NO CA file and an OS trust store that yields no certificate (SSL_CERT_FILE is process-wide: they are
+/// executed one after the other by a child process of the driver, see `os_empty_child`): every kind of such a store x
+/// server certificate {os-ca, trusted CA, self-signed, other CA} x client certificate {none, client-ca} x entry point x
+/// skip-verify {on: must connect, off: must not}.
+fn os_empty_domain(algs: &[&str]) -> Vec<OsTrustCase> {
+    let mut v = Vec::new();
+    for alg in algs {
+        for kind in OS_EMPTY_STORE_KINDS {
+            for server_cert in OS_SKIP_SERVER_CERTS {
+                for client_cert in ["none", "client-ca"] {
+                    for via in CLIENT_VIA {
+                        for skip in [true, false] {
+                            v.push(OsTrustCase { alg: (*alg).into(), side: "client".into(), ca_file: "system".into(), via: via.into(), ctor: "make_server_config".into(), server_cert: server_cert.into(), client_cert: client_cert.into(), skip, os_store: kind.into() });
+                        }
+                    }
+                }
+            }
+        }
+    }
+    v
+}
+
 #[derive(Default)]
 struct OsStats {
+    /// skip-verify ON over an empty root store: handshakes made / succeeded (vacuity guard)
+    skip_on_run: AtomicU64,
+    skip_on_ok: AtomicU64,
     cases: AtomicU64,
     controls_run: AtomicU64,
     control_ok: AtomicU64,
@@ -1273,7 +1338,7 @@ async fn run_os_trust_case(pki: &Pki, c: &OsTrustCase, sink: &Sink<'_>, counters
         let mut facts: Facts = Vec::new();
         let replay = c.to_json();
         stats.cases.fetch_add(1, Ordering::Relaxed);
-        let bundle = format!("{}/osts-{}-{}-{}-{}-{}-{}.pem", pki.dir_path, c.side, c.ca_file, c.via, c.ctor, c.server_cert, c.client_cert);
+        let bundle = format!("{}/osts-{}-{}-{}-{}-{}-{}{}.pem", pki.dir_path, c.side, c.ca_file, c.via, c.ctor, c.server_cert, c.client_cert, if c.skip { "-skip" } else { "" });
         if c.side == "client" {
             // ---- the client's CA path
             let ca_path: Option<String> = if c.unusable() {
@@ -1290,17 +1355,41 @@ async fn run_os_trust_case(pki: &Pki, c: &OsTrustCase, sink: &Sink<'_>, counters
                     return facts;
                 }
             };
-            let (o, _) = subject_handshake_via(&c.via, cfg, "localhost", pki.client(&c.client_cert), ca_path.as_deref(), false).await;
+            let (o, _) = subject_handshake_via(&c.via, cfg, "localhost", pki.client(&c.client_cert), ca_path.as_deref(), c.skip).await;
             counters.evals.fetch_add(1, Ordering::Relaxed);
             facts.push(("client.connect_ok".into(), json!(o.client_connect_ok)));
             facts.push(("success".into(), json!(o.success())));
             facts.push(("timed_out".into(), json!(o.timed_out)));
-            let ctx = format!("client via {} with {}, skip-verify off, client certificate {}; server certificate issued by {} (localhost, name matches); OS trust store = {{os-ca}}", c.via, match ca_path { Some(_) => format!("--tls-ca = <{}>", c.ca_file), None => "no --tls-ca (system roots)".to_string() }, c.client_cert, c.server_cert);
+            let ctx = format!("client via {} with {}, skip-verify {}, client certificate {}; server certificate issued by {} (localhost, name matches); OS trust store = {}", c.via, match ca_path { Some(_) => format!("--tls-ca = <{}>", c.ca_file), None => "no --tls-ca (system roots)".to_string() }, if c.skip { "ON" } else { "off" }, c.client_cert, c.server_cert, if c.empty_os_store() { format!("SSL_CERT_FILE -> <{}> (no certificate in it)", c.os_store) } else { "{os-ca}".to_string() });
             if o.timed_out {
                 sink.viol("matrix.hang".into(), format!("handshake did not finish within 30 s ({ctx})"), replay);
                 return facts;
             }
-            let defect = if c.unusable() { Some("unusable-ca-bundle") } else { server_cert_defect(&c.server_cert, "localhost", "localhost", &c.ca_file) };
+            if c.skip {
+                // told to skip verification: ANY certificate is accepted, whatever the client's roots are (here: none at all)
+                if c.no_roots() {
+                    stats.skip_on_run.fetch_add(1, Ordering::Relaxed);
+                    stats.skip_on_ok.fetch_add(u64::from(o.success()), Ordering::Relaxed);
+                }
+                if !o.success() {
+                    let (key, roots) = if c.unusable() {
+                        (format!("client.rejects-server.skip-verify-on.unusable-ca-bundle.{}", c.ca_file), format!("the CA file it was given holds no certificate ({})", c.ca_file))
+                    } else if c.empty_os_store() && c.ca_file == "system" {
+                        ("client.rejects-server.skip-verify-on.empty-os-trust-store".to_string(), format!("it was given no CA file and the OS trust store holds no certificate ({})", c.os_store))
+                    } else {
+                        ("client.rejects-server.skip-verify-on".to_string(), format!("its roots are {}", c.ca_file))
+                    };
+                    sink.viol(key, format!("the client was told to skip verification, so any certificate is to be accepted whatever its roots are, and {roots}: handshake/echo failed (client connected={}, echo ok={}, client: {:?}, server: {:?}); {ctx}", o.client_connect_ok, o.echo_ok, o.client_err, o.server_err), replay);
+                }
+                return facts;
+            }
+            let defect = if c.unusable() {
+                Some("unusable-ca-bundle")
+            } else if c.no_roots() {
+                Some("empty-os-trust-store")
+            } else {
+                server_cert_defect(&c.server_cert, "localhost", "localhost", &c.ca_file)
+            };
             if c.is_system_control() {
                 stats.controls_run.fetch_add(1, Ordering::Relaxed);
                 if o.success() {
@@ -1316,7 +1405,9 @@ async fn run_os_trust_case(pki: &Pki, c: &OsTrustCase, sink: &Sink<'_>, counters
                     stats.observed_refusals.fetch_add(u64::from(!o.client_connect_ok), Ordering::Relaxed);
                     if o.client_connect_ok {
                         let key = if c.unusable() { format!("client.accepts-server.unusable-ca-bundle.{}", c.ca_file) } else { format!("client.accepts-server.{why}.skip-verify-off") };
-                        let what = if c.unusable() {
+                        let what = if c.no_roots() && !c.unusable() {
+                            format!("it was given no CA file and the OS trust store holds no certificate ({}), so it has NO roots, yet it reached the server", c.os_store)
+                        } else if c.unusable() {
                             format!("the CA file it was given holds no certificate ({}), so it was given NO roots, yet it reached the server{}", c.ca_file, if c.server_cert == "os-ca" { " (whose certificate chains to a CA of the OS trust store that the client was never given)" } else { "" })
                         } else {
                             format!("the server certificate is unacceptable ({why}): the roots it was given are {} only", if c.ca_file == "system" { "the OS trust store = os-ca" } else { c.ca_file.as_str() })
@@ -3435,6 +3526,21 @@ fn prov_child(args: &Args) -> Report {
 /// Run the child (whole sub-matrix, or `spec` = `{"cases": [...], "runs": N}`) and read the report it printed.
 /// Ok: the `extra.provider` object of the child's report. Err: the child did not produce a result (a machinery problem).
 fn prov_spawn(args: &Args, spec: Option<&Value>) -> Result<Value, String> {
+    let mut envs = vec![(PROV_CHILD_ENV, "1".to_string()), (CHROMIUM_ENV, "1".to_string())];
+    if let Some(sp) = spec {
+        envs.push((PROV_CASES_ENV, sp.to_string()));
+    }
+    let (v, status, text) = spawn_self(args, &envs)?;
+    let d = &v["extra"]["provider"];
+    if d["status"].as_str() != Some("ran") || d["provider"]["chromium_like"].as_bool() != Some(true) {
+        return Err(format!("the child process ({status}) wrote a result without the provider-matrix findings: {}", text.chars().take(300).collect::<String>()));
+    }
+    Ok(d.clone())
+}
+
+/// Runs this binary again as `C17` with `envs` set (every child-mode variable of this driver that is not in `envs` is
+/// removed) and reads the report it printed. Ok: (the report, exit status, standard output).
+fn spawn_self(args: &Args, envs: &[(&str, String)]) -> Result<(Value, String, String), String> {
     let exe = std::env::current_exe().map_err(|e| format!("cannot find the path of this binary to run it again: {e}"))?;
     let tmp = tempfile::Builder::new().prefix("verif-c17-child-").tempdir().map_err(|e| format!("tempdir for the child's output: {e}"))?;
     let outp = tmp.path().join("child.stdout.json");
@@ -3444,9 +3550,11 @@ fn prov_spawn(args: &Args, spec: Option<&Value>) -> Result<Value, String> {
     let mut cmd = std::process::Command::new(exe);
     // no --out: the report is printed on standard output
     cmd.arg("C17").arg("--tier").arg(&args.tier).arg("--threads").arg(args.threads.to_string());
-    cmd.env(PROV_CHILD_ENV, "1").env(CHROMIUM_ENV, "1").env_remove(PROV_CASES_ENV);
-    if let Some(sp) = spec {
-        cmd.env(PROV_CASES_ENV, sp.to_string());
+    for k in [PROV_CHILD_ENV, PROV_CASES_ENV, CHROMIUM_ENV, OS_EMPTY_CHILD_ENV, OS_EMPTY_CASES_ENV] {
+        cmd.env_remove(k);
+    }
+    for (k, v) in envs {
+        cmd.env(k, v);
     }
     cmd.stdin(std::process::Stdio::null()).stdout(std::process::Stdio::from(outf)).stderr(errf);
     let mut child = cmd.spawn().map_err(|e| format!("cannot start a child process: {e}"))?;
@@ -3474,11 +3582,165 @@ fn prov_spawn(args: &Args, spec: Option<&Value>) -> Result<Value, String> {
     if let Some(m) = v["machinery_error"].as_str() {
         return Err(format!("child process: {m}"));
     }
-    let d = &v["extra"]["provider"];
-    if d["status"].as_str() != Some("ran") || d["provider"]["chromium_like"].as_bool() != Some(true) {
-        return Err(format!("the child process ({status}) wrote a result without the provider-matrix findings: {}", text.chars().take(300).collect::<String>()));
+    Ok((v, status.to_string(), text))
+}
+
+// ---------------------------------------------------------------------------------------
+// os-trust-store pass, the half with an OS trust store that yields NO certificate
+//
+// "No --tls-ca on a host whose system trust store is empty or unreadable" (a minimal container): the client has no root
+// at all. With skip-verify ON it must reach ANY server all the same; with skip-verify off it reaches nobody. What the
+// OS trust store is comes from SSL_CERT_FILE, which is process-wide and, in the driver's own process, names the bundle
+// with os-ca for the whole run. So these cases are executed by a child process of this binary (`OS_EMPTY_CHILD_ENV`),
+// ONE AFTER THE OTHER on one thread: before each case the child rewrites the file its own SSL_CERT_FILE names
+// (`rustls-native-certs` reads it on every load) as the case says {empty, private key only, a CA in DER, truncated PEM,
+// no file at all}. The cases with skip-verify off and a server certificate under os-ca are at the same time the
+// control that the store is really without os-ca in the child. The parent merges what the child found (same keys).
+// ---------------------------------------------------------------------------------------
+
+/// set in the child: run the empty-OS-trust-store cases (or the cases of `OS_EMPTY_CASES_ENV`)
+const OS_EMPTY_CHILD_ENV: &str = "VERIF_C17_OS_EMPTY_CHILD";
+/// optional, for the child: `{"cases": [case JSON ...], "runs": N}` instead of the whole domain (replay)
+const OS_EMPTY_CASES_ENV: &str = "VERIF_C17_OS_EMPTY_CASES";
+
+fn os_empty_algs(args: &Args) -> Vec<&'static str> {
+    if args.thorough() { ALGS.to_vec() } else { vec!["p256"] }
+}
+
+fn os_empty_child(args: &Args) -> Report {
+    let mut rep = Report::new("C17", &args.tier, "enum", "exploration");
+    quiet_panics();
+    // SAFETY: as in `run`: the very start, no thread of ours reads the environment.
+    unsafe {
+        std::env::remove_var(CHROMIUM_ENV);
+    }
+    let os_store = match OsStore::install() {
+        Ok(s) => s,
+        Err(e) => {
+            rep.machinery_error = Some(e);
+            return rep;
+        }
+    };
+    if tls::init_crypto_provider().is_none() && CryptoProvider::get_default().is_none() {
+        rep.machinery_error = Some("os-trust-store child: cannot install the rustls crypto provider".into());
+        return rep;
+    }
+    let spec: Option<Value> = std::env::var(OS_EMPTY_CASES_ENV).ok().and_then(|t| serde_json::from_str(&t).ok());
+    let (cases, runs): (Vec<OsTrustCase>, usize) = match &spec {
+        Some(sp) => (sp["cases"].as_array().map(|a| a.iter().map(OsTrustCase::from_json).collect()).unwrap_or_default(), sp["runs"].as_u64().unwrap_or(1).max(1) as usize),
+        None => (os_empty_domain(&os_empty_algs(args)), 1),
+    };
+    if cases.is_empty() || cases.iter().any(|c| !c.empty_os_store() || c.side != "client" || c.ca_file != "system") {
+        rep.machinery_error = Some("os-trust-store child: no case, or a case that is not [client side, no CA file, OS trust store without certificates], was handed over".into());
+        return rep;
+    }
+    let t0 = std::time::Instant::now();
+    let mut algs: Vec<String> = Vec::new();
+    for c in &cases {
+        if !algs.contains(&c.alg) {
+            algs.push(c.alg.clone());
+        }
+    }
+    let found_m = Mutex::new(Report::new("C17", &args.tier, "enum", "exploration"));
+    let sink = Sink { rep: &found_m };
+    let counters = Counters { evals: AtomicU64::new(0) };
+    let stats = OsStats::default();
+    let rt = runtime();
+    let mut observations: Vec<Value> = Vec::new();
+    let mut samples: Vec<Value> = Vec::new();
+    // fresh key material per run (replay: two runs)
+    let mut per_case: Vec<Vec<Value>> = vec![Vec::new(); cases.len()];
+    for _ in 0..runs {
+        // `Pki::new` appends its os-ca to the store file: it has to exist (the previous run may have left none)
+        write(&os_store.path, "");
+        let pkis: Vec<(String, Pki)> = algs.iter().map(|a| (a.clone(), Pki::new(a, &os_store))).collect();
+        for (k, c) in cases.iter().enumerate() {
+            let pki = &pkis.iter().find(|(a, _)| *a == c.alg).expect("pki").1;
+            // what the OS trust store is for this case (nothing else runs in this process)
+            let _ = std::fs::remove_file(&os_store.path);
+            if c.os_store != "missing" {
+                write(&os_store.path, unusable_bundle(&c.os_store, &pki.server("trusted-ca", "localhost").key_pem, &pki.ca_os));
+            }
+            match rt.block_on(run_os_trust_case(pki, c, &sink, &counters, &stats)) {
+                Ok(f) => {
+                    if samples.len() < 2 && c.server_cert == "self-signed" && c.client_cert == "none" && c.via == "tls_connect" && c.os_store == "empty" {
+                        samples.push(json!({"case": c.to_json(), "observed": f}));
+                    }
+                    per_case[k].push(json!({"verdict": f}));
+                }
+                Err(p) => per_case[k].push(json!({"verdict": {"panicked": p}})),
+            }
+        }
+    }
+    if spec.is_some() {
+        observations = per_case.into_iter().map(|v| json!(v)).collect();
+    }
+    let ld = |a: &AtomicU64| a.load(Ordering::Relaxed);
+    let found = found_m.into_inner().unwrap();
+    rep.evaluations = counters.evals.load(Ordering::Relaxed);
+    rep.distinct_nontrivial = cases.iter().collect::<HashSet<_>>().len() as u64;
+    rep.rule = "child process of the C17 driver: os-trust-store pass, the cases with an OS trust store (SSL_CERT_FILE) that yields no certificate; findings are in extra.os_empty".into();
+    rep.extra.insert(
+        "os_empty".into(),
+        json!({
+            "status": "ran",
+            "cases": cases.len(),
+            "runs": runs,
+            "stats": {
+                "cases_executed": ld(&stats.cases),
+                "handshakes": ld(&counters.evals),
+                "skip_verify_on_handshakes": ld(&stats.skip_on_run),
+                "skip_verify_on_succeeded": ld(&stats.skip_on_ok),
+                "skip_verify_off_expected_refusals": ld(&stats.expected_refusals),
+                "skip_verify_off_observed_refusals": ld(&stats.observed_refusals),
+            },
+            "wall_s": t0.elapsed().as_secs_f64(),
+            "violations": found.violations.iter().map(|v| json!({"key": v.key, "desc": v.desc, "replay": v.replay, "count": v.count})).collect::<Vec<_>>(),
+            "observations": observations,
+            "samples": samples,
+        }),
+    );
+    rep
+}
+
+/// Run the child of `os_empty_child`. Ok: the `extra.os_empty` object of its report.
+fn os_empty_spawn(args: &Args, spec: Option<&Value>) -> Result<Value, String> {
+    let mut envs = vec![(OS_EMPTY_CHILD_ENV, "1".to_string())];
+    if let Some(sp) = spec {
+        envs.push((OS_EMPTY_CASES_ENV, sp.to_string()));
+    }
+    let (v, status, text) = spawn_self(args, &envs)?;
+    let d = &v["extra"]["os_empty"];
+    if d["status"].as_str() != Some("ran") {
+        return Err(format!("the child process ({status}) wrote a result without the findings of the empty-OS-trust-store cases: {}", text.chars().take(300).collect::<String>()));
     }
     Ok(d.clone())
+}
+
+fn replay_os_empty(args: &Args, v: &Value, mut rep: Report) -> Report {
+    let case = OsTrustCase::from_json(v);
+    rep.distinct_nontrivial = 1;
+    rep.extra.insert("replayed".into(), v.clone());
+    rep.rule = "replay of one recorded case of the os-trust-store pass with an OS trust store that yields no certificate, executed twice with fresh key material by a child process whose SSL_CERT_FILE names such a file; observations must agree".into();
+    match os_empty_spawn(args, Some(&json!({"cases": [case.to_json()], "runs": 2}))).and_then(|d| prov_child_violations(&d).map(|vs| (d, vs))) {
+        Err(e) => rep.machinery_error = Some(format!("os-trust-store (empty OS trust store): {e}")),
+        Ok((d, vs)) => {
+            for (key, desc, replay, n) in vs {
+                // both runs raise the same violations; halve the counts
+                rep.violation_n(key, desc, replay, n.div_ceil(2));
+            }
+            rep.evaluations = d["stats"]["handshakes"].as_u64().unwrap_or(0);
+            let obs = d["observations"][0].as_array().cloned().unwrap_or_default();
+            if obs.len() != 2 {
+                rep.machinery_error = Some(format!("os-trust-store (empty OS trust store): the child process handed back {} observations instead of 2", obs.len()));
+            } else if obs[0]["verdict"] != obs[1]["verdict"] {
+                rep.machinery_error = Some(format!("replay is not deterministic: {} vs {}", obs[0]["verdict"], obs[1]["verdict"]));
+            }
+            rep.extra.insert("observations".into(), json!(obs));
+            rep.extra.insert("os_trust_store_empty_store".into(), d["stats"].clone());
+        }
+    }
+    rep
 }
 
 /// Violations of a child's result, as (key WITHOUT prefix, description, replay, count).
@@ -3645,6 +3907,10 @@ fn replay(args: &Args, v: &Value, mut rep: Report, os_store: &OsStore) -> Report
     if v["kind"].as_str() == Some("provider-matrix") {
         return replay_prov(args, v, rep);
     }
+    if v["kind"].as_str() == Some("os-trust-store") && v["os_store_content"].as_str().is_some_and(|k| k != OS_STORE_DEFAULT) {
+        // SSL_CERT_FILE of this process names the bundle with os-ca: the case belongs to a child process
+        return replay_os_empty(args, v, rep);
+    }
     let alg = v["alg"].as_str().expect("replay: alg").to_string();
     let pki = Pki::new(&alg, os_store);
     let rep_m = Mutex::new(Report::new("C17", &args.tier, "enum", "exploration"));
@@ -3764,6 +4030,7 @@ fn replay(args: &Args, v: &Value, mut rep: Report, os_store: &OsStore) -> Report
     if v["kind"].as_str() == Some("os-trust-store") {
         rep.extra.insert("os_trust_store_cases".into(), json!(os_stats.cases.load(Ordering::Relaxed) / 2));
         rep.extra.insert("os_trust_store_control_ok".into(), json!(os_stats.control_ok.load(Ordering::Relaxed) / 2));
+        rep.extra.insert("os_trust_store_skip_verify_on_empty_roots_succeeded".into(), json!(os_stats.skip_on_ok.load(Ordering::Relaxed) / 2));
     }
     rep.distinct_nontrivial = 1;
     rep.rule = "replay of one recorded configuration, executed twice with fresh key material; observations must agree".into();
@@ -3779,6 +4046,9 @@ fn replay(args: &Args, v: &Value, mut rep: Report, os_store: &OsStore) -> Report
 pub fn run(args: &Args) -> Report {
     if std::env::var_os(PROV_CHILD_ENV).is_some() {
         return prov_child(args);
+    }
+    if std::env::var_os(OS_EMPTY_CHILD_ENV).is_some() {
+        return os_empty_child(args);
     }
     let mut rep = Report::new("C17", &args.tier, "enum", "exploration");
     quiet_panics();
@@ -3812,7 +4082,7 @@ pub fn run(args: &Args) -> Report {
     }
     let thorough = args.thorough();
     let algs: Vec<&str> = if thorough { ALGS.to_vec() } else { vec!["p256"] };
-    rep.rule = "complete product: key algorithm x server certificate {trusted-CA leaf, other-CA leaf, self-signed, expired trusted-CA leaf} x (certificate name, requested name) x skip-verify x roots given to the client {trusted CA, other CA, none/system} x client certificate {none, client-CA, other-CA, self-signed} x server client-CA {none, set} x server-config constructor; plus harness-client probes (TLS1.2/1.3) of every server configuration, all reload histories A->B (identities, client-CA before/after, reload method), a client-CA file without a usable certificate {empty, key only, not PEM, truncated PEM} at start-up (every constructor) and at reload (every method): refusing is fine, admitting a client without a certificate under a CA is not; the OS trust store of the process is SSL_CERT_FILE = {os-ca} and the os-trust-store pass is the complete product, client side (tls_connect and make_client_config, skip-verify off, name matches): CA file {empty, key only, the trusted CA in DER, truncated PEM} x server certificate issued by {os-ca, trusted CA} x client certificate {none, under client CA} must NOT connect, a usable file of {trusted CA, other CA} must not reach a server certificate under os-ca, no CA file must not reach one under the trusted CA, controls: no CA file reaches a server certificate under os-ca (must hold, else MACHINERY) and os-ca given as a file does too; server side (harness client presenting a certificate issued by os-ca, TLS 1.2 and 1.3): client-CA file {empty, key only, the client CA in DER, truncated PEM} at start-up (every constructor) and at reload (every method): refused, or the os-ca client is rejected (after a refused reload the old configuration rejects it too), a usable client-CA file of another CA rejects it, control: os-ca as the client-CA file admits it; and the real client main loop over loopback TCP for every (--hostname, --tls-server-name, certificate name, skip-verify) combination; reload histories through SIGUSR1 on a running server_main (loopback TCP, one after the other): starting from identity A, each step rewrites the live --tls-cert/--tls-key files as one of {good-B, good-A, bad-key = key file truncated, bad-cert = certificate file not PEM} and raises SIGUSR1, then a harness client that accepts any certificate opens a new connection: it must be shown the last well-formed identity written so far (a new identity within 3 s; an unchanged one is looked at once after 300 ms), the connection made before the first signal must still get an HTTP response at the end, and a TLS handshake that only STARTS at the end, on a TCP connection accepted before the first signal and silent since, must be shown the identity then in force; quick tier: every history of length 1..=2 and, of length 3, those whose first step is bad-key/bad-cert and whose last step is good-A/good-B, plus [good-B, bad-key, good-A]; thorough tier: every history of length 1..=4, and every history of length 1..=2 again with a client CA configured and for every further key algorithm; returning-client histories: ONE rustls ClientConfig (session store kept: tickets / session ids) per history, client in {harness TLS1.3, harness TLS1.2 (both record the certificate presented), the subject's make_client_config}, (client certificate, client CA at start) in {(none, none), (under ca1, none), (under ca1, ca1)}, first visit to identity A (full handshake, round trip, clean close), then every sequence of steps over {again = connect again without reload, X/ca = reload to identity X in {A,B} with client CA ca in {none, ca1, ca2} and connect again} of length 1..=2 (thorough: 1..=3 for the first key algorithm) for each of the three library reload methods (server side accepts like server_main: LazyConfigAcceptor, identity taken after the ClientHello), and through SIGUSR1 on a running server_main (client-CA file rewritten; steps {again, A, B} without client CA, {again, A/ca1, B/ca1, A/ca2, B/ca2} with one; quick: harness TLS1.3 client, length 1; thorough: length 1..=2, other clients length 1; a fresh non-resuming client must observe the new state within 3 s before the returning one is judged): every connection must carry the certificate of the identity in force (peer_certificates of that connection) and is served iff no client CA is in force or the client's certificate is issued by the one in force; control: a second visit without any reload must be a resumption, else MACHINERY; crypto provider x key type of the peer being authenticated (provider-matrix pass): for each crypto provider {default aws-lc-rs: in this process; Chromium-like: a child process of this binary with PENGUIN_TLS_CHROMIUM_LIKE=1, provider installed by tls::init_crypto_provider() and recognised by its cipher-suite list, else MACHINERY} x server leaf key type x client leaf key type (default: {P-256, P-384, Ed25519, RSA-2048}^2; Chromium-like: {P-256, P-384, RSA-2048}^2, Ed25519 is not in that provider's tables; CAs P-256) the complete product server certificate {trusted-CA leaf, other-CA leaf, self-signed} x requested name {matches, differs} x skip-verify x client certificate {none, client-CA, other-CA} x server client-CA {none, set} (roots given to the client: the trusted CA; make_tls_identity), handshake plus 1-byte echo both ways, judged by the reference predicate of the core matrix; what the child finds is reported under the key prefix `chromium.`; a case is distinct when its configuration tuple is distinct".into();
+    rep.rule = "complete product: key algorithm x server certificate {trusted-CA leaf, other-CA leaf, self-signed, expired trusted-CA leaf} x (certificate name, requested name) x skip-verify x roots given to the client {trusted CA, other CA, none/system} x client certificate {none, client-CA, other-CA, self-signed} x server client-CA {none, set} x server-config constructor; plus harness-client probes (TLS1.2/1.3) of every server configuration, all reload histories A->B (identities, client-CA before/after, reload method), a client-CA file without a usable certificate {empty, key only, not PEM, truncated PEM} at start-up (every constructor) and at reload (every method): refusing is fine, admitting a client without a certificate under a CA is not; the OS trust store of the process is SSL_CERT_FILE = {os-ca} and the os-trust-store pass is the complete product, client side (tls_connect and make_client_config, skip-verify off, name matches): CA file {empty, key only, the trusted CA in DER, truncated PEM} x server certificate issued by {os-ca, trusted CA} x client certificate {none, under client CA} must NOT connect, a usable file of {trusted CA, other CA} must not reach a server certificate under os-ca, no CA file must not reach one under the trusted CA, controls: no CA file reaches a server certificate under os-ca (must hold, else MACHINERY) and os-ca given as a file does too; server side (harness client presenting a certificate issued by os-ca, TLS 1.2 and 1.3): client-CA file {empty, key only, the client CA in DER, truncated PEM} at start-up (every constructor) and at reload (every method): refused, or the os-ca client is rejected (after a refused reload the old configuration rejects it too), a usable client-CA file of another CA rejects it, control: os-ca as the client-CA file admits it; skip-verify ON over an EMPTY root store (tls_connect and make_client_config, client certificate {none, under client CA}, server certificate issued by {os-ca, trusted CA, self-signed, other CA}): CA file {empty, key only, the trusted CA in DER} (a file with a cut-off PEM section is refused as unreadable in either mode and is left out), and (in a child process of this binary whose SSL_CERT_FILE names such a file, cases one after the other) no CA file with an OS trust store {empty, key only, os-ca in DER, truncated PEM, no file}: handshake and 1-byte echo must SUCCEED, and the same child cases with skip-verify off must not connect; and the real client main loop over loopback TCP for every (--hostname, --tls-server-name, certificate name, skip-verify) combination; reload histories through SIGUSR1 on a running server_main (loopback TCP, one after the other): starting from identity A, each step rewrites the live --tls-cert/--tls-key files as one of {good-B, good-A, bad-key = key file truncated, bad-cert = certificate file not PEM} and raises SIGUSR1, then a harness client that accepts any certificate opens a new connection: it must be shown the last well-formed identity written so far (a new identity within 3 s; an unchanged one is looked at once after 300 ms), the connection made before the first signal must still get an HTTP response at the end, and a TLS handshake that only STARTS at the end, on a TCP connection accepted before the first signal and silent since, must be shown the identity then in force; quick tier: every history of length 1..=2 and, of length 3, those whose first step is bad-key/bad-cert and whose last step is good-A/good-B, plus [good-B, bad-key, good-A]; thorough tier: every history of length 1..=4, and every history of length 1..=2 again with a client CA configured and for every further key algorithm; returning-client histories: ONE rustls ClientConfig (session store kept: tickets / session ids) per history, client in {harness TLS1.3, harness TLS1.2 (both record the certificate presented), the subject's make_client_config}, (client certificate, client CA at start) in {(none, none), (under ca1, none), (under ca1, ca1)}, first visit to identity A (full handshake, round trip, clean close), then every sequence of steps over {again = connect again without reload, X/ca = reload to identity X in {A,B} with client CA ca in {none, ca1, ca2} and connect again} of length 1..=2 (thorough: 1..=3 for the first key algorithm) for each of the three library reload methods (server side accepts like server_main: LazyConfigAcceptor, identity taken after the ClientHello), and through SIGUSR1 on a running server_main (client-CA file rewritten; steps {again, A, B} without client CA, {again, A/ca1, B/ca1, A/ca2, B/ca2} with one; quick: harness TLS1.3 client, length 1; thorough: length 1..=2, other clients length 1; a fresh non-resuming client must observe the new state within 3 s before the returning one is judged): every connection must carry the certificate of the identity in force (peer_certificates of that connection) and is served iff no client CA is in force or the client's certificate is issued by the one in force; control: a second visit without any reload must be a resumption, else MACHINERY; crypto provider x key type of the peer being authenticated (provider-matrix pass): for each crypto provider {default aws-lc-rs: in this process; Chromium-like: a child process of this binary with PENGUIN_TLS_CHROMIUM_LIKE=1, provider installed by tls::init_crypto_provider() and recognised by its cipher-suite list, else MACHINERY} x server leaf key type x client leaf key type (default: {P-256, P-384, Ed25519, RSA-2048}^2; Chromium-like: {P-256, P-384, RSA-2048}^2, Ed25519 is not in that provider's tables; CAs P-256) the complete product server certificate {trusted-CA leaf, other-CA leaf, self-signed} x requested name {matches, differs} x skip-verify x client certificate {none, client-CA, other-CA} x server client-CA {none, set} (roots given to the client: the trusted CA; make_tls_identity), handshake plus 1-byte echo both ways, judged by the reference predicate of the core matrix; what the child finds is reported under the key prefix `chromium.`; a case is distinct when its configuration tuple is distinct".into();
 
     let t0 = std::time::Instant::now();
     let pkis: Vec<(String, Pki)> = algs.iter().map(|a| ((*a).to_string(), Pki::new(a, &os_store))).collect();
@@ -3834,6 +4104,9 @@ pub fn run(args: &Args) -> Report {
     let badcas = bad_ca_domain(&algs);
     let ostrust = os_trust_domain(&algs);
     let os_stats = OsStats::default();
+    // the half of the os-trust-store pass with an OS trust store without certificates: a child process (own environment)
+    let os_empty_cases = os_empty_domain(&os_empty_algs(args)).len();
+    let os_empty_result: Mutex<Option<Result<Value, String>>> = Mutex::new(None);
     let sigs = sig_domain(&algs, thorough);
     // the symlink sub-pass of signal-reload: same domain in both tiers
     let syms = sym_domain(&algs);
@@ -3850,7 +4123,7 @@ pub fn run(args: &Args) -> Report {
     let sig_machinery: Mutex<Option<String>> = Mutex::new(None);
     let sig_wall: Mutex<f64> = Mutex::new(0.0);
     let ret_sig_wall: Mutex<f64> = Mutex::new(0.0);
-    let distinct = rets.iter().collect::<HashSet<_>>().len() + sigs.iter().collect::<HashSet<_>>().len() + syms.iter().collect::<HashSet<_>>().len() + badcas.len() + ostrust.iter().collect::<HashSet<_>>().len() + matrix.iter().collect::<HashSet<_>>().len() + probes.iter().collect::<HashSet<_>>().len() + reloads.iter().collect::<HashSet<_>>().len() + names.iter().collect::<HashSet<_>>().len() + prov_default.iter().collect::<HashSet<_>>().len() + prov_chromium_cases;
+    let distinct = rets.iter().collect::<HashSet<_>>().len() + sigs.iter().collect::<HashSet<_>>().len() + syms.iter().collect::<HashSet<_>>().len() + badcas.len() + ostrust.iter().collect::<HashSet<_>>().len() + matrix.iter().collect::<HashSet<_>>().len() + probes.iter().collect::<HashSet<_>>().len() + reloads.iter().collect::<HashSet<_>>().len() + names.iter().collect::<HashSet<_>>().len() + prov_default.iter().collect::<HashSet<_>>().len() + prov_chromium_cases + os_empty_cases;
     let n_name_ok = AtomicU64::new(0);
     let n_name_refused = AtomicU64::new(0);
     let n_badca_refused_start = AtomicU64::new(0);
@@ -3901,6 +4174,11 @@ pub fn run(args: &Args) -> Report {
             let r = prov_spawn(args, None);
             *prov_child_wall.lock().unwrap() = t.elapsed().as_secs_f64();
             *prov_child_result.lock().unwrap() = Some(r);
+        });
+        // the empty-OS-trust-store half of the os-trust-store pass: a child process too
+        s.spawn(|| {
+            let r = os_empty_spawn(args, None);
+            *os_empty_result.lock().unwrap() = Some(r);
         });
         for _ in 0..threads {
             s.spawn(|| {
@@ -4118,6 +4396,25 @@ pub fn run(args: &Args) -> Report {
             rep.extra.insert("provider_matrix_samples".into(), d["samples"].clone());
         }
     }
+    // ---- os-trust-store pass: what the child (OS trust store without certificates) found, merged under the same keys
+    let mut os_empty_machinery: Option<String> = None;
+    let mut os_empty_skip_on_ok = 0u64;
+    match os_empty_result.into_inner().unwrap().unwrap_or_else(|| Err("the child process was never started".into())).and_then(|d| prov_child_violations(&d).map(|vs| (d, vs))) {
+        Err(e) => os_empty_machinery = Some(format!("os-trust-store (empty OS trust store): {e}")),
+        Ok((d, vs)) => {
+            for (key, desc, replay, n) in vs {
+                rep.violation_n(key, desc, replay, n);
+            }
+            let st = &d["stats"];
+            let g = |k: &str| st[k].as_u64().unwrap_or(0);
+            rep.evaluations += g("handshakes");
+            os_empty_skip_on_ok = g("skip_verify_on_succeeded");
+            if g("cases_executed") != os_empty_cases as u64 {
+                os_empty_machinery = Some(format!("os-trust-store (empty OS trust store): the child process executed {} of {os_empty_cases} cases", g("cases_executed")));
+            }
+            rep.extra.insert("os_trust_store_empty_store".into(), json!({"stats": st, "wall_s": d["wall_s"], "samples": d["samples"]}));
+        }
+    }
     if prov_stats.handshakes.load(Ordering::Relaxed) != prov_default.len() as u64 {
         prov_machinery = Some(format!("provider-matrix (default provider): {} of {} cases were executed", prov_stats.handshakes.load(Ordering::Relaxed), prov_default.len()));
     }
@@ -4138,6 +4435,8 @@ pub fn run(args: &Args) -> Report {
     rep.bounds.insert("os_trust_store_cases_server_side".into(), json!(ostrust.iter().filter(|c| c.side == "server").count()));
     rep.bounds.insert("os_trust_store_unusable_bundles".into(), json!(OS_BUNDLE_KINDS));
     rep.bounds.insert("os_trust_store_client_entry_points".into(), json!(CLIENT_VIA));
+    rep.bounds.insert("os_trust_store_skip_verify_on_cases".into(), json!({"over a CA file without certificates (in this process)": ostrust.iter().filter(|c| c.skip).count(), "no CA file, OS trust store without certificates (child process; half of them skip-verify off)": os_empty_cases, "server_certificates": OS_SKIP_SERVER_CERTS, "client_certificates": ["none", "client-ca"], "ca_files_without_certificates": OS_SKIP_BUNDLE_KINDS}));
+    rep.bounds.insert("os_trust_store_empty_store_kinds".into(), json!(OS_EMPTY_STORE_KINDS));
     rep.bounds.insert("os_trust_store".into(), json!("SSL_CERT_FILE = bundle holding only os-ca (one per key algorithm), SSL_CERT_DIR unset; set before any TLS configuration is built"));
     rep.bounds.insert("signal_reload_histories".into(), json!(sigs.len()));
     rep.bounds.insert("signal_reload_alphabet".into(), json!(SIG_ALPHABET));
@@ -4177,6 +4476,8 @@ pub fn run(args: &Args) -> Report {
     rep.extra.insert("os_trust_store_observed_refusals".into(), json!(os_stats.observed_refusals.load(Ordering::Relaxed)));
     rep.extra.insert("os_trust_store_configurations_refused".into(), json!(os_stats.configs_refused.load(Ordering::Relaxed)));
     rep.extra.insert("os_trust_store_file".into(), json!("SSL_CERT_FILE -> <tempdir>/os-trust-store.pem"));
+    rep.extra.insert("os_trust_store_skip_verify_on_empty_roots_handshakes".into(), json!(ld(&os_stats.skip_on_run)));
+    rep.extra.insert("os_trust_store_skip_verify_on_empty_roots_succeeded".into(), json!(ld(&os_stats.skip_on_ok)));
     rep.extra.insert("unusable_client_ca_refused_at_start".into(), json!(n_badca_refused_start.load(Ordering::Relaxed)));
     rep.extra.insert("client_name_expected_accept".into(), json!(n_name_ok.load(Ordering::Relaxed)));
     rep.extra.insert("client_name_expected_refuse".into(), json!(n_name_refused.load(Ordering::Relaxed)));
@@ -4234,6 +4535,12 @@ pub fn run(args: &Args) -> Report {
         ));
     } else if rep.violations.is_empty() && (os_stats.cases.load(Ordering::Relaxed) != ostrust.len() as u64 || os_stats.control_ok.load(Ordering::Relaxed) != n_os_controls || n_os_controls == 0) {
         rep.machinery_error = Some(format!("os-trust-store: {} of {} cases were executed, {} of {n_os_controls} controls hold", os_stats.cases.load(Ordering::Relaxed), ostrust.len(), os_stats.control_ok.load(Ordering::Relaxed)));
+    }
+    // skip-verify over an empty root store: the child ran, and in a clean run such handshakes were seen to succeed (both halves)
+    if let Some(m) = os_empty_machinery {
+        rep.machinery_error = Some(m);
+    } else if rep.violations.is_empty() && (ld(&os_stats.skip_on_ok) == 0 || os_empty_skip_on_ok == 0) {
+        rep.machinery_error = Some(format!("os-trust-store: no violation although no skip-verify-ON handshake over an empty root store succeeded ({} over a CA file without certificates, {os_empty_skip_on_ok} over an OS trust store without certificates): vacuous", ld(&os_stats.skip_on_ok)));
     }
     // returning-client pass: every history executed, and the controls show that this set-up resumes at all
     let control_failures = ret_stats.control_failures.lock().unwrap().clone();
